@@ -68,7 +68,10 @@ EXTRA = {
                    "blockShaped of its two plain layouts (all decidable, all checked per generated case).",
 }
 
-BLANKS = ["", "", " ", "  ", "\t", " \t", " ", "  "]
+# header blanks: every code point of Python's str.isspace() / re's \\s (rc.SPACE_CPS, 29 of them) except the two
+# that end a line of text; drawn singly and in pairs, next to the empty string
+_WS = [chr(c) for c in rc.SPACE_CPS if c not in (10, 13)]
+BLANKS = ["", "", "", " ", "  ", "\t", " \t"] + _WS + [a + b for a, b in zip(_WS, _WS[5:])]
 # decomposed sequences (e + combining acute, a + combining ring, Hangul jamo): names must come back as written
 NAME_ALPHA = rc.NAME_ALPHA + [":", "*", "é", "k", "e\u0301", "a\u030a", "\u1100\u1161", "\ufeff", "\u200b", "\u2060",
                               "\u00ad", "\U0001F600"]
@@ -78,6 +81,8 @@ LINEISH_ALPHA = ["a", "b", "x", "1", " ", "-", "é", "\x0b", "\x0c", "\x1c", "\x
                  "\ufeff", "\ufeff", "\u200b", "\u2060", "\u00ad", "\U0001F600", "\U0001D538", "\U00020000"]
 LADDER = [1025, 4097, 8193, 2049, 16385, 255, 1023, 8191, 64, 128, 4095, 20000, 257, 1000, 2047]
 COMMENTS = ["comment", "more", "**x", "", " ", "k:", "1.5", ":::t", "-"]
+# in a native grid the cells after the blank cell can be anything (a revision number, a date stamp, a flag)
+NATIVE_COMMENTS = [3, 2.5, True, None, datetime.datetime(2024, 1, 15)]
 
 
 def is_blank(c):
@@ -191,7 +196,7 @@ def draw_dt_pool(rng, native):
 
 
 def gen_tv(rng, native, illformed=None, zero_cols=False, n_rows=None):
-    n_col = rng.choice([1, 1, 2, 2, 3, 3, 4, 4, 6, 9, 17])
+    n_col = rng.choice([1, 1, 2, 2, 3, 3, 4, 4, 6, 9, 17]) if rng.random() < 0.985 else rng.choice([33, 40, 65])
     n_row = rng.choice([0, 1, 2, 3, 5])
     if zero_cols:
         n_col, n_row = 0, 0
@@ -367,10 +372,11 @@ def draw_rewrites(rng, t, mode, only_rowwise=False):
             steps.append({"k": "pad_header_r" if lay == "R" else "pad_header_t", "names": pn, "units": pu})
         elif k == "comments" and lay == "R":
             b = rng.choice(["", " "] if csv else ["", " ", None])
+            pool = COMMENTS if csv else COMMENTS + NATIVE_COMMENTS + NATIVE_COMMENTS
             steps.append({"k": "comments", "blank": b,
-                          "cells": [rng.choice(COMMENTS) for _ in range(rng.randint(0, 3))]})
+                          "cells": [rng.choice(pool) for _ in range(rng.randint(0, 3))]})
         elif k == "pad":
-            pads = [[rng.choice(blanks_cells) for _ in range(rng.choice([0, 0, 1, 2, 5, 9, 40]))]
+            pads = [[rng.choice(blanks_cells) for _ in range(rng.choice([0, 0, 1, 2, 5, 9, 40] if rng.random() < 0.97 else [65, 70, 130]))]
                     for _ in range(rng.randint(0, n_lines + 1))]
             steps.append({"k": "pad_trailing", "pads": pads})
     return lay, start, steps
